@@ -80,7 +80,10 @@ def gen_cases(ctx):
             cases.append({"kind": "letter", "pat": p, "seq": x, "target": "seq", "linear": True,
                           "pos": 0, "endpos": None})
     # (c) exhaustive short targets over {A,C} for a fixed pattern set, circular and linear
-    fixed = ["AA(NNNN)", "(A)(C*)(A)", "C(A*?)(C)", "(AC)(N*)(CA)", "A(N*?)A(N*)C", "((A)C)"]
+    # the last three start with a literal run that overlaps itself: a failed attempt at one occurrence must
+    # not hide the overlapping next one
+    fixed = ["AA(NNNN)", "(A)(C*)(A)", "C(A*?)(C)", "(AC)(N*)(CA)", "A(N*?)A(N*)C", "((A)C)",
+             "AA(N)C", "ACA(N)CC", "CC(N*?)AC"]
     maxlen = 6 if ctx.quick else 8
     for n in range(1, maxlen + 1):
         for w in itertools.product("AC", repeat=n):
